@@ -5,6 +5,7 @@
 * Replies come from a script, one entry per received frame: {"data": bytes, "delay": turns} or {"eof": True}.
 """
 import asyncio
+import time
 from collections import deque
 
 from ..boot import HarnessError
@@ -44,6 +45,8 @@ class Conn:
         self.client_eof = False
         self.sent = []          # replies sent (bytes or "EOF")
         self.half_closed = False
+        self.script = deque()   # per-connection replies (take precedence over the device-wide script)
+        self.times = []         # clock reading (time.time(), possibly virtual) when each frame was cut
 
 
 class FakeDevice:
@@ -151,9 +154,12 @@ class FakeDevice:
     async def _frame(self, conn, writer, frame, flag):
         conn.frames.append(frame)
         conn.flags.append(flag)
+        conn.times.append(time.time())
         if self.on_frame is not None:
             self.on_frame(conn, frame)
-        if self.script:
+        if conn.script:
+            rep = conn.script.popleft()
+        elif self.script:
             rep = self.script.popleft()
         else:
             self.unscripted += 1
@@ -190,6 +196,7 @@ class FakeDevice:
             c.frames.clear()
             c.flags.clear()
             c.sent.clear()
+            c.times.clear()
 
     async def wait_all_closed(self, turns=2000):
         for _ in range(turns):
